@@ -408,7 +408,7 @@ func c15Loop(c *core.Ctx, r *core.Reporter) {
 		return true
 	})
 	if loop == nil {
-		r.Bad("ExecuteSubscription.loop", s.worker.Pos(), "no `for { select { … } }` event loop found in the worker")
+		r.Unknown("ExecuteSubscription.loop", s.worker.Pos(), "no `for { select { … } }` event loop found in the worker literal (moved into another function?): re-confirm the loop's arms")
 		return
 	}
 	r.Check(loop.Cond == nil && loop.Init == nil && loop.Post == nil && len(loop.Body.List) == 1, "ExecuteSubscription.loop.shape", loop.Pos(),
